@@ -163,6 +163,10 @@ def gen_cases(ctx):
                     "vf": [rng.choice([0.0, 0.5, -0.5, 2.0, -2.0]) if adv else 0.0 for _ in range(nmax)],
                     "wf": [rng.choice([0.0, 0.5, -0.5, 3.0, -3.0]) if vadv else 0.0 for _ in range(nmax)],
                     "seed": rng.randrange(2**32)})
+    # the real ROMS grid with a spacing that differs from cell to cell: wide, tall, whole and subgrid
+    for k, (imax, jmax, sub) in enumerate([(30, 8, None), (8, 26, None), (28, 9, (12, 27, 1, 8)), (9, 24, (1, 8, 10, 23))] * (1 if ctx.quick else 4)):
+        out.append({"k": "romsgrid", "imax": imax, "jmax": jmax, "sub": sub, "D": [1.0, 10.0, 0.1, 100.0][k % 4], "dt": [600, 60, 3600, 300][k % 4],
+                    "dx0": [800.0, 4000.0, 160.0, 20000.0][k % 4], "seed": rng.randrange(2**31)})
     ncloud = 16 if ctx.quick else 48
     for i in range(ncloud):
         mode = ["h", "v", "hv", "hv+w", "none", "none+w", "h+w", "v+w"][i % 8]
@@ -415,7 +419,50 @@ def eval_cloud(desc, ctx):
             "kind": f"cloud-{desc['mode']}", "observed": summary}
 
 
+def eval_romsgrid(desc, ctx):
+    """oracle only: the real ROMS grid (wide or tall, whole or subgrid) whose spacing differs from cell to cell; the
+    random displacement of every particle, in grid units, is its own draw times sqrt(2 D dt) over the spacing of the
+    cell the particle is in (nearest rho point)"""
+    import romsfiles as rf
+    import tracker_impl as ti
+    from ladim.ROMS import Grid
+
+    imax, jmax, D, dt, sub, seed = desc["imax"], desc["jmax"], desc["D"], desc["dt"], desc["sub"], desc["seed"]
+    d = ctx.subdir("c11")
+    f = d / f"grid_{seed}.nc"
+    dxg = desc["dx0"] * (1.0 + 0.0625 * np.arange(imax))[None, :] * (1.0 + 0.125 * np.arange(jmax))[:, None]
+    rf.write_roms(f, imax=imax, jmax=jmax, N=2, times=[0], dx=dxg, grid_only=True)
+    grid = Grid(f, subgrid=list(sub) if sub else None)
+    f.unlink()
+    i0, i1, j0, j1 = (sub if sub else (1, imax - 1, 1, jmax - 1))
+    prng = np.random.default_rng(seed + 1)
+    n = 12
+    X = np.concatenate([prng.uniform(i0 + 0.6, i1 - 1.6, n - 2), [i1 - 1.6, i0 + 0.6]])
+    Y = np.concatenate([prng.uniform(j0 + 0.6, j1 - 1.6, n - 2), [j0 + 0.6, j1 - 1.6]])
+    zero = np.zeros(n)
+    tr, st, _ = ti.make_tracker(grid, ti.StubForcing(U=zero, V=zero), dt, "EF", diffusion=D)
+    tr.rng = np.random.default_rng(seed)
+    st.append(X=X.copy(), Y=Y.copy(), Z=5.0)
+    tr.update()
+    ref = np.random.default_rng(seed)
+    xi, eta = ref.normal(size=n), ref.normal(size=n)
+    own = dxg[np.round(Y).astype(int), np.round(X).astype(int)]
+    amp = math.sqrt(2 * D * dt)
+    problems = []
+    for p in range(n):
+        for name, got, want in (("X", float(st.X[p]) - X[p], xi[p] * amp / own[p]), ("Y", float(st.Y[p]) - Y[p], eta[p] * amp / own[p])):
+            if not st.alive[p]:
+                continue
+            if abs(got - want) > 1e-9 * (1 + abs(want)):
+                problems.append(f"particle at ({X[p]:.3f},{Y[p]:.3f}) of a {imax}x{jmax} grid (subgrid {sub}): random {name} step {got} grid units, "
+                                f"its draw times sqrt(2*D*dt)/dx of its own cell ({own[p]:.4g} m) is {want}")
+    return {"ints": None, "oracle": "; ".join(problems[:2]) or None, "nontrivial": ("romsgrid", imax, jmax, bool(sub)), "kind": "romsgrid",
+            "observed": {"grid": [imax, jmax], "sub": sub}}
+
+
 def eval_case(desc, ctx):
+    if desc["k"] == "romsgrid":
+        return eval_romsgrid(desc, ctx)
     if desc["k"] == "cloud":
         return eval_cloud(desc, ctx)
     return eval_small(desc, ctx)
